@@ -13,8 +13,9 @@ for i, nm in enumerate(FDOPS):
                     clause='shared fd handle: %s from an arbitrary reference structure, then destruction in any rotation' % nm))
 META = dict(
     explanation='Bounded solver verdict over the real header-only Cabinet<T>/ObjectPool<T> templates and util/fd.cpp, instantiated in a harness TU, compiled to LLVM IR by clang and executed path-wise by engine/symir.py; every branch and assertion is decided by z3. '
-                'Cabinet and Fd are checked by one-step induction from an arbitrary valid state (so histories of any length are covered for the window sizes); the object pool by exhaustive symbolic histories.',
-    bounds='cabinet: 3 cells (+0/+1 spare vector capacity), arbitrary ids < 2^64-5, arbitrary client token; pool: histories of 5 (quick) / 7 (thorough) alloc/free steps, <= 3 live objects, retention limit in {0,1,2,unlimited}; fd: 4 handles over <= 2 records, one of 9 operations',
+                'Cabinet and Fd are checked by one-step induction from an arbitrary valid state (so histories of any length are covered for the window sizes); the object pool by exhaustive symbolic histories.'
+                ' Extended: the pool is also used re-entrantly (an element constructor allocating from the same pool, chain of 3, 0-2 blocks parked); the descriptor handles own descriptor numbers 0 and 4.',
+    bounds='cabinet: 3 cells (+0/+1 spare vector capacity), arbitrary ids < 2^64-5, arbitrary client token; pool: histories of 5 (quick) / 7 (thorough) alloc/free steps, <= 3 live objects, retention limit in {0,1,2,unlimited}; fd: 4 handles over <= 2 records, one of 9 operations; nested pool use: depth 3',
     outside='cabinet id wrap at 2^64; Token::hash quality; cabinets with more than 3 cells in the pre-state window (growth beyond is covered only through alloc from the window); LifetimeTag',
     assumptions=['operator new / malloc never fail', 'tokens presented to a cabinet were issued by that cabinet (id <= last_id_)'],
     trusted_base=['clang++-14 -O1 IR', 'engine/symir.py interpreter and its libstdc++/libc models', 'z3'])
